@@ -195,14 +195,30 @@ def strip(n):
             return n
 
 
-def lit_value(n):
+# values of local constants whose initialiser is a literal (or simple arithmetic on literals / other such constants):
+# filled by Facts(); `lit_value` looks through a path to one of them, so a rule that expects a literal is not upset by
+# `const LIMIT: usize = 128;`
+CONST_VALUES = {}
+
+
+def lit_value(n, _depth=0):
     n = strip(n)
     if n.get("k") == "Lit":
         return n["lit"].get("v")
     if n.get("k") == "Unary" and n.get("op") == "Neg":
-        v = lit_value(n["e"])
+        v = lit_value(n["e"], _depth + 1)
         if isinstance(v, int):
             return -v
+    if n.get("k") == "Path":
+        r = n.get("res", {})
+        if r.get("r") == "def" and str(r.get("dk", "")).startswith(("Const", "AssocConst")):
+            return CONST_VALUES.get(r.get("path"))
+    if n.get("k") == "Binary" and _depth < 4 and n.get("op") in ("Mul", "Add", "Sub", "Shl"):
+        a, b = lit_value(n["l"], _depth + 1), lit_value(n["r"], _depth + 1)
+        if isinstance(a, int) and isinstance(b, int) and not isinstance(a, bool) and not isinstance(b, bool):
+            return {"Mul": a * b, "Add": a + b, "Sub": a - b, "Shl": a << b if 0 <= b < 64 else None}[n["op"]]
+    if n.get("k") == "Cast" and _depth < 4:
+        return lit_value(n["e"], _depth + 1)
     return None
 
 
@@ -558,6 +574,14 @@ class Facts:
         self.ffi = Crate(raw["wirefilter_ffi"])
         self.wasm = Crate(raw["wirefilter_wasm"])
         self.crates = [self.engine, self.ffi, self.wasm]
+        CONST_VALUES.clear()
+        for _ in range(3):      # constants defined from other constants
+            for c in self.crates:
+                for h in c.hir_list:
+                    if "body" in h and str(h.get("kind", "")).startswith(("Const", "AssocConst")) and h["path"] not in CONST_VALUES:
+                        v = lit_value(h["body"])
+                        if v is not None:
+                            CONST_VALUES[h["path"]] = v
 
 
 # ----------------------------------------------------------------------------------------------
@@ -948,3 +972,101 @@ def let_init(body, name):
     """the initialiser of `let name = ..` (None if absent or ambiguous)"""
     found = [st["init"] for st in exprs(body, "SLet") if "init" in st and st["pat"].get("k") == "PBinding" and st["pat"]["name"] == name]
     return found[0] if len(found) == 1 else None
+
+
+_FN_PATHS_CACHE = {}
+
+
+def canon_fn(crate, path):
+    """function path in which the function that *encloses* a nested item (a struct/impl declared inside a function body) is
+    replaced by `{fn}`: `<<A as T>::compile::Searcher as Compare>::compare` and `<a::compile_contains::Searcher as
+    Compare>::compare` are the same comparator after the enclosing function was split. Reviewed lists are matched
+    modulo this."""
+    key = id(crate)
+    if key not in _FN_PATHS_CACHE:
+        _FN_PATHS_CACHE[key] = sorted({norm(i["path"]) for i in crate.items if i["kind"] in ("Fn", "AssocFn")}, key=len, reverse=True)
+    if not path.startswith("<"):
+        return path
+    for fp in _FN_PATHS_CACHE[key]:
+        needle = fp + "::"
+        i = path.find(needle)
+        if i >= 0 and i + len(needle) < len(path) and path[i + len(needle)].isupper():
+            mod = re.match(r"(?:[<&\s]|mut\s)*((?:[a-z_0-9]+::)*)", fp).group(1).rstrip(":")
+            return path[:i].rstrip("<") + ("<" if path[:i].endswith("<") else "") + "{fn@%s}::" % mod + path[i + len(needle):]
+    return path
+
+
+_STRIP_CLO = re.compile(r"(::\{closure#\d+\})+$")
+
+
+def judge_panic_sites(crate, allowed, sites):
+    """Compare the explicit panic sites found (sites: {(canonical function, kind): set of locations}) with a reviewed
+    list (allowed: {(canonical function, kind): entry}, entry may carry `count` = number of sites reviewed there).
+    Returns {key: (status, reason)} with status
+      ok        reviewed entry, not more sites than were reviewed
+      grown     reviewed entry, but more sites of that kind than were reviewed (a new, unreviewed one among them)
+      moved     not listed, accepted: reviewed sites moved into / out of a closure of the same function, into a private
+                helper called only from functions whose reviewed sites disappeared (as many as appeared), or the reviewed
+                private function was renamed (it no longer exists, same parent, same number of sites)
+      new       not listed and not explained: an unreviewed explicit panic
+    """
+    out = {}
+    n_sites = {k: len(v) for k, v in sites.items()}
+
+    def base(fn):
+        return _STRIP_CLO.sub("", fn)
+    # how many reviewed sites each reviewed function (closures folded in) has lost
+    reviewed_by_base, present_by_base = defaultdict(int), defaultdict(int)
+    for (fn, kind), ent in allowed.items():
+        cnt = ent.get("count") if isinstance(ent, dict) else None
+        reviewed_by_base[(base(fn), kind)] += cnt if isinstance(cnt, int) else n_sites.get((fn, kind), 1)
+    for (fn, kind), n in n_sites.items():
+        if (fn, kind) in allowed or any(a_[1] == kind and base(a_[0]) == base(fn) for a_ in allowed):
+            present_by_base[(base(fn), kind)] += n
+    deficit = {k: max(0, reviewed_by_base[k] - present_by_base.get(k, 0)) for k in reviewed_by_base}
+    existing = {norm(i["path"]) for i in crate.items if i["kind"] in ("Fn", "AssocFn")}
+    rev = callers_by_name(crate)
+    for key in sorted(sites):
+        fn, kind = key
+        n = n_sites[key]
+        ent = allowed.get(key)
+        if ent is not None:
+            cnt = ent.get("count") if isinstance(ent, dict) else None
+            if isinstance(cnt, int) and n > cnt:
+                # sites may have moved in from the function's own closures
+                b = (base(fn), kind)
+                if present_by_base.get(b, 0) <= reviewed_by_base.get(b, 0):
+                    out[key] = ("ok", "reviewed (sites moved between the function and its closures)")
+                else:
+                    out[key] = ("grown", "%d sites of this kind, %d were reviewed" % (n, cnt))
+            else:
+                out[key] = ("ok", "reviewed")
+            continue
+        b = (base(fn), kind)
+        if b in reviewed_by_base and present_by_base.get(b, 0) <= reviewed_by_base[b]:
+            out[key] = ("moved", "reviewed %s site of %s moved between the function and its closures" % (kind, base(fn)))
+            continue
+        it = crate.item(base(fn))
+        private_fn = it is not None and it.get("vis") != "Public" and not it.get("parent_kind", "").startswith("Impl { of_trait: true")
+        if private_fn:
+            callers = {canon_fn(crate, c_) for c_ in rev.get(base(fn), set())}
+            budget = [(c_, kind) for c_ in callers if deficit.get((c_, kind), 0) > 0]
+            avail = sum(deficit[b_] for b_ in budget)
+            if callers and all((c_, kind) in reviewed_by_base for c_ in callers) and avail >= n:
+                need = n
+                for b_ in budget:
+                    take = min(need, deficit[b_])
+                    deficit[b_] -= take
+                    need -= take
+                out[key] = ("moved", "reviewed %s site(s) of %s moved into this private helper" % (kind, ", ".join(sorted(callers))))
+                continue
+            # renamed private function: a reviewed function of the same parent is gone, with the same number of sites
+            parent = base(fn).rsplit("::", 1)[0]
+            gone = [b_ for b_ in deficit if b_[1] == kind and b_[0] not in existing and b_[0].rsplit("::", 1)[0] == parent and
+                    deficit[b_] >= n and "{fn@" not in b_[0]]
+            if len(gone) == 1:
+                deficit[gone[0]] -= n
+                out[key] = ("moved", "the reviewed private function %s no longer exists; %s has the same %s site(s) (renamed)" % (gone[0][0], base(fn), kind))
+                continue
+        out[key] = ("new", "")
+    return out
